@@ -22,7 +22,7 @@ let handle line =
   | [head; progs; sched] ->
       let hw = words head in
       let bo = (List.hd hw = "blockon") in
-      let script = (match hw with _ :: f :: _ -> List.map (fun c -> c = 'r') (List.init (String.length f) (String.get f)) | _ -> []) in
+      let script = (match hw with _ :: f :: _ -> List.map (fun c -> n_of_int (match c with 'r' -> 1 | 'w' -> 2 | _ -> 0)) (List.init (String.length f) (String.get f)) | _ -> []) in
       let progs = List.map (fun p -> prog_of (String.trim p)) (String.split_on_char ';' progs) in
       let sched = List.filter_map (fun c -> if c >= '0' && c <= '9' then Some (Char.code c - 48) else None)
           (List.init (String.length sched) (String.get sched)) in
